@@ -143,7 +143,7 @@ func (w *World) runBlocks(fr *Frame, incoming map[*ssa.BasicBlock][]inEdge, rg *
 				if rg.unroll {
 					w.unrollArrival(fr, st, k)
 				}
-			case w.unrollN > 0 && fr.top:
+			case w.unrollN > 0:
 				w.unrollLoop(fr, ins, b, k, incoming, rg)
 				continue
 			case rg != nil:
